@@ -27,7 +27,7 @@ fn main() {
     out.stat_n(if cfg!(debug_assertions) { "build.debug" } else { "build.release" }, 1);
     out.stat_n(if cfg!(target_feature = "bmi2") { "build.bmi2" } else { "build.portable" }, 1);
     match prop {
-        "C01" => c01::run(&mut rng, &mut out, thorough),
+        "C01" => c01::run(&mut rng, &mut out, thorough, variant),
         "C17" => c17::run(&mut rng, &mut out, thorough, variant),
         "C18" => c18::run(&mut rng, &mut out, thorough, variant),
         "C20" => c20::run(&mut rng, &mut out, thorough, variant),
